@@ -52,7 +52,7 @@ class EEMSRead(Command):
         if data_type_name in ("Positive Integer", "Positive Float") and data.min() < 0:
             raise InvalidPositiveData(path, data_type_name, lineno=self.lineno)
 
-        if numpy.issubdtype(data.dtype, numpy.float64) and data_type in (
+        if numpy.issubdtype(data.dtype, numpy.floating) and data_type in (
             int,
             numpy.uint,
         ):
